@@ -135,8 +135,20 @@ theorem Inc_simple (c : Nat → Nat) (s : St) (op : Op) (s' : St) (r : String) (
           (by rfl)
       | exact IncI.adel hI (by have := hI.1 _ _ ‹aget s.S _ = some _›; omega))
 
+theorem Inc_forceDelG (c : Nat → Nat) (s : St) (g : Nat) (h : Inc c s) : Inc c (forceDelG s g) := by
+  unfold forceDelG
+  split
+  · exact h
+  · simp only []
+    split <;> split <;>
+      first
+      | exact (Inc.prims c).gcImpl _ ((Inc.prims c).invalidateTrackable _ h)
+      | exact (Inc.prims c).invalidateTrackable _ h
+      | exact (Inc.prims c).gcImpl _ h
+      | exact h
+
 theorem Inc.coll {c : Nat → Nat} (s : St) (h : Inc c s) : Inc c (collect s) :=
-  (Inc.prims c).collect (fun _ _ x => x) (fun _ _ x => x) h
+  (Inc.prims c).collect (fun _ _ x => x) (fun _ _ x => x) (dropG_of (fun _ _ x => x) (Inc_forceDelG c)) h
 
 theorem Inc.epi {c : Nat → Nat} (s : St) (i m : Nat) (h : Inc c s) : Inc c (emitEpi s i m) := by
   unfold emitEpi
@@ -151,18 +163,6 @@ theorem Inc.epi {c : Nat → Nat} (s : St) (i m : Nat) (h : Inc c s) : Inc c (em
     split
     · exact (Inc.prims c).eraseCell _ _ h
     · exact Inc.fail _ h
-
-theorem Inc_forceDelG (c : Nat → Nat) (s : St) (g : Nat) (h : Inc c s) : Inc c (forceDelG s g) := by
-  unfold forceDelG
-  split
-  · exact h
-  · simp only []
-    split <;> split <;>
-      first
-      | exact (Inc.prims c).gcImpl _ ((Inc.prims c).invalidateTrackable _ h)
-      | exact (Inc.prims c).invalidateTrackable _ h
-      | exact (Inc.prims c).gcImpl _ h
-      | exact h
 
 theorem Inc.callPro {c : Nat → Nat} {s : St} {i : Nat} {v : SlotVar} (h : Inc c s) (hv : aget s.S i = some v) :
     Inc (bump c i) (callPro s i v) := by
